@@ -876,6 +876,43 @@ def colvec_check(c, m):
     return []
 
 
+def bracket_name_check(loss_name):
+    """a vector of twelve states declared as the range 'y0:12'; observed (and target) states named by position, 'y[11]', 'y[2]',
+    'y[10]' (two-digit positions included): cost / residual / costIV against the closed form of the decay chain.  -> None or what fails"""
+    import pg
+    import pygom
+    n, k0, k1 = 12, 0.8, 0.5
+    odes = [pg.Transition(origin="y%d" % j, equation="-k*%d*y%d/12" % (j + 1, j), transition_type="ODE") for j in range(n)]
+    m = pg.model(state=["y0:%d" % n], param=["k"], ode=odes)
+    m.parameters = [("k", k0)]
+    x0 = [float(5 + j) for j in range(n)]
+    t = np.array([0.5, 1.0, 2.0])
+    names, idx = ["y[11]", "y[2]", "y[10]"], [11, 2, 10]
+    sol = lambda k, x: np.column_stack([x[j] * np.exp(-k * (j + 1) / 12 * t) for j in idx])
+    Y = sol(k0, x0)
+    kw = {"NormalLoss": dict(sigma=2.0)}.get(loss_name, {})
+    try:
+        L = getattr(pygom, loss_name)([k0], m, list(x0), 0.0, t, Y.copy(), names, target_state=["y[10]"], **kw)
+        c0, c1 = float(L.cost([k0])), float(L.cost([k1]))
+        r1 = np.asarray(L.residual([k1]), dtype=float)
+        civ = float(L.costIV([k1, 17.0]))
+    except Exception as e:      # noqa: B902
+        return "%s on states named %s raised %s: %s" % (loss_name, names, type(e).__name__, str(e)[:120])
+    x0b = list(x0)
+    x0b[10] = 17.0
+    if loss_name == "SquareLoss":
+        want = lambda yh: float(((Y - yh) ** 2).sum())
+    else:
+        want = lambda yh: float((0.5 * ((Y - yh) / 2.0) ** 2 + np.log(2.0) + 0.5 * np.log(2 * np.pi)).sum())
+    for tag, got, w in (("cost(k=%g)" % k0, c0, want(sol(k0, x0))), ("cost(k=%g)" % k1, c1, want(sol(k1, x0))),
+                        ("costIV(k=%g, y[10](0)=17)" % k1, civ, want(sol(k1, x0b)))):
+        if abs(got - w) > 1e-6 * abs(w) + 1e-9:
+            return "%s with observed states %s (positions in the range 'y0:12'): %s = %.10g, the closed form gives %.10g" % (loss_name, names, tag, got, w)
+    if r1.shape != Y.shape or not np.allclose(r1, Y - sol(k1, x0), rtol=1e-6, atol=1e-8):
+        return "%s with observed states %s: residual(k=%g) differs from y - closed form (column j <-> j-th named state)" % (loss_name, names, k1)
+    return None
+
+
 def run_search(ck):
     rng = np.random.default_rng([ck.seed, 606])
     nmodels = ck.budget(50, 300)
@@ -923,6 +960,11 @@ def run_search(ck):
                 stats["max_zero_ratio"] = max(stats["max_zero_ratio"], ratio)
                 for cls, what in v:
                     ck.violation(cls, what, dict(kind="zero", config=c))
+    for ln in ("SquareLoss", "NormalLoss"):
+        ck.case(dict(kind="bracket-names", loss=ln), nontrivial=True)
+        bad = bracket_name_check(ln)
+        if bad:
+            ck.violation("state-named-by-position", bad, dict(kind="bracket-names", loss=ln))
     stats["wall_s"] = round(time.time() - t_start, 1)
     ck.notes["search"] = stats
     return stats
@@ -977,6 +1019,8 @@ def replay(ck, data):
     inp = data.get("input")
     if not inp:
         return None
+    if inp.get("kind") == "bracket-names":
+        return bracket_name_check(inp["loss"])
     c = inp["config"]
     m, _ = build_search_model({k: v for k, v in c["spec"].items() if k != "porder"})
     if inp["kind"] == "config":
